@@ -9,6 +9,8 @@ PRELUDE = '''
 class Junk {}
 fn churn() {
     var j = [];
+    // nine fresh ranges: whatever was kept alive only by the interpreter's cache of the last eight ranges loses that cover
+    for k in 0..9 { var pressure = (300 + k)..(400 + k); }
     for i in 0..6 {
         j.push([i, "s${i}", (i, i)]);
         var o = Junk.new();
